@@ -146,14 +146,17 @@ class SunVoxReader(Reader):
             in_link_slots = mod.in_link_slots
             for in_link_idx, in_link in enumerate(mod.in_links):
                 out_link_idx = in_link_slots[in_link_idx]
-                if in_link == -1 or out_link_idx == -1:
+                if in_link == -1:
                     continue
                 src_mod = modules[in_link]
                 if not src_mod:
                     raise RuntimeError()
                 out_links = src_mod.out_links
-                if out_link_idx < len(out_links) and out_links[out_link_idx] != -1:
-                    # Slot is already taken by another link; use the lowest free one.
+                if out_link_idx == -1 or (
+                    out_link_idx < len(out_links) and out_links[out_link_idx] != -1
+                ):
+                    # No slot given for an existing link, or the slot is already
+                    # taken by another link; use the lowest free one.
                     out_link_idx = (
                         out_links.index(-1) if -1 in out_links else len(out_links)
                     )
